@@ -371,6 +371,8 @@ def generate(repo, vrs_path):
     gen.options = dict(s.arg.split(None, 1) for s in secs if s.kind == "option")
     sources = {}
     gen.add("// GENERATED by /verif/vf from %s and /repo's working tree -- do not edit\n" % os.path.basename(vrs_path))
+    for f in gen.options.get("feature", "").split():
+        gen.add("#![feature(%s)]\n" % f)
     gen.add("#![allow(unused_imports, unused_variables, unused_mut, dead_code, unused_parens, unused_assignments, non_snake_case)]\nuse vstd::prelude::*;\n")
     for s in secs:
         if s.kind == "uses":
